@@ -308,7 +308,7 @@ def main():
         "setup_cmd": "bin/setup",
         "hooks": {
             "guard": "verif",
-            "enable": "go build tag: go1.26.8 test -tags verif (harness module /verif/harness with replace => /repo)",
+            "enable": "go build tag: go1.26.8 test -tags verif (harness module /verif/harness with replace => /repo); trace hooks emit only when VERIF_INMEM_TRACE / VERIF_QUEUE_TRACE / VERIF_RUNTIME_TRACE name a file prefix, the delivery gate only when a harness installs it",
             "baseline_off_cmd": "cd /repo && GOFLAGS=-mod=mod go test -vet=off -count=1 -timeout 25m ./...",
             "source_commits": hooks_commits,
             "add_only": True,
